@@ -139,6 +139,10 @@ impl QuicConnector {
 
     async fn get_connection(self: &Arc<Self>) -> Result<QuicConn, Error> {
         let mut c = self.connection.lock().await;
+        // a cached connection that is already closed (peer gone, idle timeout) is useless
+        if matches!(&*c, Some((conn, _)) if conn.close_reason().is_some()) {
+            *c = None;
+        }
         if c.is_none() {
             *c = Some(self.create_connection().await?);
         }
